@@ -299,7 +299,7 @@ for val in spec["valuations"]:
                        inner=mod.Inner(q=11, w=1), mp={"a": 1, "b": 2}, f=1.5, i=7, k=40, two=2.0,
                        opt=conv("opt", val["opt"]), un=conv("un", val["un"]), nun=conv("nun", val["nun"]),
                        fa=np.array([[1, 2, 3], [4, 5, 6]], dtype=np.int32), fv=[7, 8, 9], da=np.array([[1, 2], [3, 4]], dtype=np.int32),
-                       tr=np.arange(1, 21, dtype=np.int32).reshape(4, 5), nx="x"))
+                       tr=np.arange(1, 21, dtype=np.int32).reshape(4, 5), nx="x", ga=mod.Gen(x=11), gb=mod.Gen(x=2.5)))
 out = []
 for j, o in enumerate(objs):
     row = {}
@@ -321,9 +321,9 @@ CPP2_HEAD = r"""
 #include <cstdio>
 #include <type_traits>
 template <class T> void show(const char* id, int item, T v) {
-  if constexpr (std::is_floating_point_v<T>) std::printf("%d %s %.17g\n", item, id, (double)v);
-  else if constexpr (std::is_signed_v<T>) std::printf("%d %s %lld\n", item, id, (long long)v);
-  else std::printf("%d %s %llu\n", item, id, (unsigned long long)v);
+  if constexpr (std::is_floating_point_v<T>) std::printf("%d %s %.17g F\n", item, id, (double)v);
+  else if constexpr (std::is_signed_v<T>) std::printf("%d %s %lld I\n", item, id, (long long)v);
+  else std::printf("%d %s %llu I\n", item, id, (unsigned long long)v);
 }
 int main(int argc, char** argv) {
   cg::binary::P2Reader reader(argv[1]);
@@ -349,9 +349,10 @@ def second_family(c, sc, yardl, home):
     open(os.path.join(mdir, "_package.yml"), "w").write(
         "namespace: Cg\ncpp:\n  sourcesOutputDir: ../cpp\n  generateHDF5: false\n  generateCMakeLists: false\n  generateNDJson: false\n"
         "  overrideArrayHeader: yardl_shim_ndarray.h\npython:\n  outputDir: ../py\n  generateNDJson: false\nmatlab:\n  outputDir: ../matlab\n")
-    lines = ["Inner: !record", "  fields:", "    q: int", "    w: int", "R2: !record", "  fields:", "    arr: int[x, y]", "    vec: int*", "    vv: int**",
+    lines = ["Gen<T>: !record", "  fields:", "    x: T", "  computedFields:", "    val: x", "    again: val",
+             "Inner: !record", "  fields:", "    q: int", "    w: int", "R2: !record", "  fields:", "    arr: int[x, y]", "    vec: int*", "    vv: int**",
              "    ni: int", "    ns: string", "    inner: Inner", "    mp: string->int", "    f: float", "    i: int", "    k: long", "    two: float",
-             "    opt: int?", "    un: [int, float]", "    nun: [null, int, float]", "    fa: int[x:2, y:3]", "    fv: int*3", "    da: int[]", "    tr: int[y, x]", "    nx: string", "  computedFields:"]
+             "    opt: int?", "    un: [int, float]", "    nun: [null, int, float]", "    fa: int[x:2, y:3]", "    fv: int*3", "    da: int[]", "    tr: int[y, x]", "    nx: string", "    ga: Gen<int>", "    gb: Gen<double>", "  computedFields:"]
     for n, x in enumerate(cases):
         x["id"] = "d%d" % n
         x["text"] = "\n".join(field_yaml(x["id"], x["e"]))
@@ -384,7 +385,7 @@ def second_family(c, sc, yardl, home):
     exe = os.path.join(root, "eval2")
     rc, o, e = run(["g++", "-std=c++17", "-O0", "-I", drivers.SHIMS, "-I", drivers.THIRD, "-I", gen, os.path.join(gen, "eval2.cc"), os.path.join(gen, "types.cc"),
                     os.path.join(gen, "protocols.cc"), os.path.join(gen, "binary", "protocols.cc"), "-o", exe], timeout=1800)
-    cpp = {}
+    cpp, cpp_class = {}, {}
     if rc != 0:
         c.violation("C19:containers:cpp_compile", "the generated C++ for the container expressions does not compile: " + e[-500:], {"model": model, "error": e[-4000:]})
     else:
@@ -393,8 +394,9 @@ def second_family(c, sc, yardl, home):
             c.violation("C19:containers:cpp_run", "the C++ evaluation of the container expressions fails (rc=%s): %s" % (rc, (e or "")[-300:]), {"model": model, "error": e})
         for line in o.splitlines():
             p = line.split()
-            if len(p) == 3:
+            if len(p) == 4:
                 cpp[(int(p[0]), p[1])] = p[2]
+                cpp_class[(int(p[0]), p[1])] = p[3]
     for x in cases:
         kind = x["e"]["k"] + (":" + x["e"]["t"]["n"] if x["e"]["k"] == "switch" else "")
         for j, expv in enumerate(x["values"]):
@@ -412,6 +414,14 @@ def second_family(c, sc, yardl, home):
                     got = Fraction(cv) if cv is not None and "." not in cv and "e" not in cv else (Fraction(float(cv)) if cv is not None else None)
                 except ValueError:
                     got = None
+                # static result type of the generated accessor: an integer-valued expression of the catalogue has an integer type, a
+                # floating-point valued one a floating-point type (Computed2.tla distinguishes [i |-> n] from [h |-> n])
+                want_class = "F" if "h" in expv else "I" if "i" in expv else None
+                # (a !switch has the common type of its branches, which the value of one branch does not determine)
+                if got == exp and want_class and x["e"]["k"] != "switch" and cpp_class.get((j, x["id"])) not in (None, want_class):
+                    c.violation("C19:type:cpp-containers:%s" % kind, "the generated C++ accessor of computed field\n%s\nhas a %s result type; the expression is %s" % (
+                        x["text"], "floating-point" if want_class == "I" else "integer", "integer-valued (%s)" % exp if want_class == "I" else "floating-point valued (%s)" % exp),
+                        {"field": x["text"], "valuation": vals[j], "expected": str(exp), "cpp": cv, "cpp_static_type_class": cpp_class.get((j, x["id"]))})
                 if got != exp:
                     c.violation("C19:value:cpp-containers:%s" % kind, "C++ evaluates computed field\n%s\nto %s for valuation %s; the specification gives %s" % (
                         x["text"], cv, json.dumps(vals[j]), exp), {"field": x["text"], "valuation": vals[j], "expected": str(exp), "cpp": cv})
